@@ -1,7 +1,9 @@
 // H-sim harness for C17 part 2: the real full-file cached file system (fs/cache) over a local-fs source and media
 // directory, single vCPU, virtual clock; scripted readers, evictions and source faults.
 //   cache <file size> <refill unit> <dir>
-//   thread <T> read <off> <len> <cuts|-> ; sleep <us> ; yield ; evict
+//   thread <T> read <off> <len> <cuts|-> ; sleep <us> ; yield ; evict ; reopen
+//        reopen: when no read is in flight the cached fs and its pool are destroyed and a new pool is created over the same
+//        media directory (reads issued meanwhile wait)
 //   srcfail <k> <short|fail>        the k-th source read returns short / fails
 //   run
 // output: call/ret lines; `src <off> <len> <ret>` for every read of the source file; ret read: r=<count> data=<ok|BAD@pos|->
@@ -46,12 +48,19 @@ struct SrcFS : public ForwardFS_Ownership {
 
 struct Script { std::string name; std::vector<std::vector<std::string>> ops; };
 static std::map<std::string, Script> scripts; static std::vector<std::string> order;
-static ICachedFileSystem* cfs; static photon::semaphore* done_sem; static int inflight = 0;
+static ICachedFileSystem* cfs; static photon::semaphore* done_sem; static int inflight = 0; static bool reopening = false;
+static IFileSystem* g_src; static std::string g_media; static uint64_t g_refill;
+static ICachedFileSystem* make_cfs() {
+    auto mediaFs = new_localfs_adaptor(g_media.c_str(), ioengine_psync);
+    auto alignFs = new_aligned_fs_adaptor(mediaFs, 4096, true, true);
+    return new_full_file_cached_fs(g_src, alignFs, g_refill, 1, 1000 * 1000, 0, new AlignedAlloc(4096), 0);
+}
 
 static void exec_op(Script& me, const std::vector<std::string>& op) {
     auto& k = op[0];
     if (k == "read") {
         size_t off = strtoul(op[1].c_str(), 0, 10), len = strtoul(op[2].c_str(), 0, 10);
+        while (reopening) photon::thread_usleep(100);
         emit("call %s read %zu %zu @%lu", me.name.c_str(), off, len, (unsigned long)vnow);
         auto file = cfs->open("/d/file", O_RDONLY, 0644);
         if (!file) { emit("ret %s read r=-9 data=-", me.name.c_str()); return; }
@@ -68,6 +77,13 @@ static void exec_op(Script& me, const std::vector<std::string>& op) {
         delete file;
     } else if (k == "sleep") photon::thread_usleep(strtoul(op[1].c_str(), 0, 10));
     else if (k == "yield") photon::thread_yield();
+    else if (k == "reopen") {
+        while (inflight > 0 || reopening) photon::thread_usleep(100);
+        reopening = true; emit("reopen %s", me.name.c_str());
+        delete cfs; cfs = make_cfs();
+        reopening = false;
+        if (!cfs) { emit("result nofs"); flush_trace(); _exit(0); }
+    }
     else if (k == "evict") { emit("evict %s", me.name.c_str()); cfs->get_pool()->evict("/d/file"); }
 }
 static void* run_script(void* arg) { auto& s = *(Script*)arg; for (auto& op : s.ops) exec_op(s, op); emit("end %s", s.name.c_str()); done_sem->signal(1); return nullptr; }
@@ -90,11 +106,8 @@ static int run_program(const std::vector<std::string>& lines) {
     std::string src = base + "/src", media = base + "/media";
     if (system(("rm -rf " + base + " && mkdir -p " + src + "/d " + media).c_str())) {}
     { std::vector<unsigned char> d(fsize); for (size_t i = 0; i < fsize; i++) d[i] = fbyte(i); FILE* fp = fopen((src + "/d/file").c_str(), "wb"); if (fsize) fwrite(d.data(), 1, fsize, fp); fclose(fp); }
-    auto srcFs = new SrcFS(new_localfs_adaptor(src.c_str(), ioengine_psync));
-    auto mediaFs = new_localfs_adaptor(media.c_str(), ioengine_psync);
-    auto alignFs = new_aligned_fs_adaptor(mediaFs, 4096, true, true);
-    auto alloc = new AlignedAlloc(4096);
-    cfs = new_full_file_cached_fs(srcFs, alignFs, refill, 1, 1000 * 1000, 0, alloc, 0);
+    g_src = new SrcFS(new_localfs_adaptor(src.c_str(), ioengine_psync)); g_media = media; g_refill = refill;
+    cfs = make_cfs();
     emit("init size=%zu refill=%lu", fsize, (unsigned long)refill);
     if (!cfs) { emit("result nofs"); flush_trace(); _exit(0); }
     done_sem = new photon::semaphore(0);
